@@ -14,6 +14,7 @@ import re
 
 from ..core import rule, AnalysisError
 from ..engine import rx, flow, cfg as cfgmod
+from ..engine import pattern as P
 from ..engine.facts import dotted, const, src, walk_func, str_value, enclosing_stmt, ancestors
 from .common import calls, in_try_handling, contains, stmt_nodes
 
@@ -121,7 +122,7 @@ def decode_wrap(ctx):
     ctx.check(bool(dr) and const(dr[0].args[1]) is True, "decode-requested", db.where(ps), "parse() does not ask for decoding", "decode_raw=True")
     # isinstance(text, str) fast path returns text unchanged
     first = [i for i in fn.body if isinstance(i, ast.If)]
-    ctx.check(bool(first) and "isinstance(text, str)" in src(first[0].test) and any(isinstance(r, ast.Return) and src(r.value).endswith(", text)") for r in first[0].body), "str-passthrough", db.where(fn), "str input is not passed through unchanged", "str input returned as is")
+    ctx.check(P.has(fn, "if isinstance($t, str):\n    ...\n    return ($e, $t)"), "str-passthrough", db.where(fn), "str input is not passed through unchanged", "str input returned as is")
 
 
 def _capture_class(pattern, flags, group=1):
